@@ -156,7 +156,17 @@ CHECKS = {
         'callback log, deep snapshot of the input before and after.',
    note=TB + 'a callback returning an input node with empty metadata makes transform write to that node: counted in the evidence, not judged (the property speaks of replacement objects).',
    technique='Coq proof on a functional model with identities + differential correspondence on random trees and callback chains',
-   ref='DESIGN.md §6 C16'),
+   ref='DESIGN.md §6 C16'), 'C17': dict(
+   text='Coq theorems: C17_wrappers_transparent (on the specification, any stack of transparent wrappers — [e], Opt(e) on a '
+        'matching e, choice with a failing branch, Fail() | e — of ANY length returns the correspondingly wrapped value; the '
+        'generated parsers follow by the refinement theorem), C17_spill_transparent (executing a sub-expression through a helper '
+        'function that receives only its declared free variables is transparent for EVERY placement of helpers, proved on the '
+        'mini-language of Spill.v, so the block accounting need not be modelled). Correspondence: 10 inner expressions x 9 wrapper '
+        'stacks x depths 1..120 (every depth across the 20-block threshold) x {unnamed, named} x {ignore, none} against the model '
+        'and specification; recursion depth 10^3..10^5 through plain rules, templates, classes on the implementation.',
+   note=TB + 'partial: the Python/C stack is not modelled (no RecursionError is an observation); spill transparency is proved on a mini-language, the full model has no spilling. Known findings: names read only via inline Python / counts are not passed to the helper.',
+   technique='Coq proofs (wrappers transparent at any depth; helper spilling transparent) + differential correspondence across the block-budget threshold',
+   ref='DESIGN.md §6 C17'),
 }
 
 PENDING = 'check under construction in this session (model/spec exist as design spikes under notes/spike; not yet wired into a registered check)'
